@@ -1312,7 +1312,20 @@ def _ite(c, a, b):
 
 
 def _pick(run, items, i):
-    raise Undecided("forced cut over concrete list")
+    """element number i (symbolic) of a concrete list: nested if-then-else over numbers / tuples of numbers"""
+    if len(items) == 1:
+        return items[0]
+
+    def sel(vals):
+        if all(isinstance(v, tuple) and len(v) == len(vals[0]) for v in vals):
+            return tuple(sel([v[k] for v in vals]) for k in range(len(vals[0])))
+        if all(is_num(v) or isinstance(v, bool) for v in vals):
+            out = vals[-1]
+            for k in range(len(vals) - 2, -1, -1):
+                out = _ite(to_z3(i) == k, vals[k], out)
+            return out
+        raise Undecided("forced cut over a concrete list of non-numeric items")
+    return sel(list(items))
 
 
 def _walk_own(fn):
